@@ -85,6 +85,62 @@ func c20Replacements() []any {
 	}
 }
 
+// c20Slot is one place of an object kind that can hold a reference (OAS 3.0.3 grammar); build wraps the reference
+// into the keys to set on the host object.
+type c20Slot struct {
+	name  string
+	build func(ref map[string]any) map[string]any
+}
+
+func slot(name string, build func(ref map[string]any) map[string]any) c20Slot { return c20Slot{name, build} }
+
+var c20SchemaContent = func(ref map[string]any) map[string]any {
+	return map[string]any{"content": map[string]any{"application/json": map[string]any{"schema": ref}}}
+}
+
+var c20Slots = map[string][]c20Slot{
+	"pathItem": {slot("parameters[]", func(r map[string]any) map[string]any { return map[string]any{"parameters": []any{r}} })},
+	"operation": {
+		slot("parameters[]", func(r map[string]any) map[string]any { return map[string]any{"parameters": []any{r}} }),
+		slot("requestBody", func(r map[string]any) map[string]any { return map[string]any{"requestBody": r} }),
+		slot("responses.200", func(r map[string]any) map[string]any { return map[string]any{"responses": map[string]any{"200": r}} }),
+		slot("callbacks.cb", func(r map[string]any) map[string]any { return map[string]any{"callbacks": map[string]any{"cb": r}} }),
+	},
+	"callback": {slot("{expression}", func(r map[string]any) map[string]any { return map[string]any{"{$request.body#/again}": r} })},
+	"parameter": {
+		slot("schema", func(r map[string]any) map[string]any { return map[string]any{"schema": r} }),
+		slot("examples.e", func(r map[string]any) map[string]any { return map[string]any{"examples": map[string]any{"e": r}} }),
+	},
+	"header": {
+		slot("schema", func(r map[string]any) map[string]any { return map[string]any{"schema": r} }),
+		slot("examples.e", func(r map[string]any) map[string]any { return map[string]any{"examples": map[string]any{"e": r}} }),
+	},
+	"requestBody": {slot("content.schema", c20SchemaContent)},
+	"response": {
+		slot("headers.h", func(r map[string]any) map[string]any { return map[string]any{"headers": map[string]any{"h": r}} }),
+		slot("content.schema", c20SchemaContent),
+		slot("links.l", func(r map[string]any) map[string]any { return map[string]any{"links": map[string]any{"l": r}} }),
+	},
+	"mediaType": {
+		slot("schema", func(r map[string]any) map[string]any { return map[string]any{"schema": r} }),
+		slot("examples.e", func(r map[string]any) map[string]any { return map[string]any{"examples": map[string]any{"e": r}} }),
+		slot("encoding.p.headers.h", func(r map[string]any) map[string]any {
+			return map[string]any{"encoding": map[string]any{"p": map[string]any{"headers": map[string]any{"h": r}}}}
+		}),
+	},
+	"schema": {
+		slot("items", func(r map[string]any) map[string]any { return map[string]any{"items": r} }),
+		slot("not", func(r map[string]any) map[string]any { return map[string]any{"not": r} }),
+		slot("additionalProperties", func(r map[string]any) map[string]any { return map[string]any{"additionalProperties": r} }),
+		slot("properties.p", func(r map[string]any) map[string]any { return map[string]any{"properties": map[string]any{"p": r}} }),
+		slot("allOf[]", func(r map[string]any) map[string]any { return map[string]any{"allOf": []any{r}} }),
+		slot("anyOf[]", func(r map[string]any) map[string]any { return map[string]any{"anyOf": []any{r}} }),
+		slot("oneOf[]", func(r map[string]any) map[string]any { return map[string]any{"oneOf": []any{r}} }),
+		slot("allOf[]+default", func(r map[string]any) map[string]any { return map[string]any{"allOf": []any{r}, "default": 1.0} }),
+		slot("items+example", func(r map[string]any) map[string]any { return map[string]any{"items": r, "example": []any{1.0}} }),
+	},
+}
+
 // exerciseDoc runs everything the property lists on a loaded document.
 func exerciseDoc(doc *openapi3.T) string {
 	var verdict string
@@ -120,6 +176,8 @@ func init() {
 	var paths [][]string
 	var skYAML []byte
 	var refPos map[string]bool
+	var graftPos []Position
+	graftAncestor := map[string]bool{}
 	prep := func() {
 		if sk != nil {
 			return
@@ -131,6 +189,12 @@ func init() {
 		refPos = map[string]bool{}
 		for _, p := range Positions(sk) {
 			refPos[p.String()] = true
+			graftAncestor[PtrString(p.Ptr)] = true
+		}
+		for _, p := range PositionsAll(sk) {
+			if len(c20Slots[p.Kind]) > 0 {
+				graftPos = append(graftPos, p)
+			}
 		}
 	}
 	yamlTokens := []string{
@@ -146,9 +210,9 @@ func init() {
 		ID: "C20",
 		Rule: "family node: the skeleton document with each JSON node (all ~1100) replaced by each of 46 replacement values (scalars, containers, 34 adversarial $ref forms incl. every wrong-kind component, pointers drilling through structs/maps/slices/scalars, missing/garbage/self files) or deleted; " +
 			"family prefix: every byte prefix of the compact skeleton; family flip: every structural byte ({}[]:,\") replaced by each other structural byte (thorough) / every 7th (quick); family yaml: the node replacements rendered as YAML (thorough: all, quick: $ref adversaries only) and 25 YAML-only token documents; " +
-			"family forest: every C02 forest (all shapes incl. cycles and bad references). x entry point {LoadFromData, LoadFromDataWithPath} x external refs allowed/disallowed. After a successful load: Validate (two option sets), json.Marshal, yaml.Marshal, InternalizeRefs, json.Marshal. non-trivial = the mutated bytes still parse as JSON/YAML (the loader proper is reached)",
+			"family graft: at every object of the skeleton (all kinds incl. operations, media types, encodings) a reference to the object itself or to each of its referenceable ancestors is grafted into each reference slot of the object's kind (self-containing callbacks, schemas composed of themselves, headers pointing to the response they are in); family forest: every C02 forest (all shapes incl. cycles and bad references). x entry point {LoadFromData, LoadFromDataWithPath} x external refs allowed/disallowed. After a successful load: Validate (two option sets), json.Marshal, yaml.Marshal, InternalizeRefs, json.Marshal. non-trivial = the mutated bytes still parse as JSON/YAML (the loader proper is reached)",
 		Assumptions: []string{
-			"termination is decided by the instrumented step budget (2e6 steps) and, for dependencies, by the 120 s per-execution watchdog",
+			"termination is decided by the instrumented step budget (1e6 steps, 15x the largest terminating execution observed) and, for dependencies, by the 120 s per-execution watchdog",
 			"a worker that dies (stack overflow, fatal error) is attributed to the choice vector it was executing",
 			"the reader serves self.json (the document itself), garbage.json (non-JSON bytes) and nothing else",
 		},
@@ -159,12 +223,12 @@ func init() {
 			if tier == "thorough" {
 				return 1500
 			}
-			return 110
+			return 300
 		},
 		Body: func(r *core.Run, x *explore.X) {
 			prep()
 			thorough := r.Tier == "thorough"
-			family := explore.Pick(x, []string{"node", "prefix", "flip", "yaml", "yamltok", "forest"})
+			family := explore.Pick(x, []string{"node", "prefix", "flip", "yaml", "yamltok", "forest", "graft"})
 			var c c20Case
 			c.family = family
 			var forest *Forest
@@ -183,6 +247,10 @@ func init() {
 				ri = x.Choose(7)
 			case "forest":
 				forest = GenForest(x, thorough)
+			case "graft":
+				pi = x.Choose(len(graftPos))
+				ri = x.Choose(len(c20Slots[graftPos[pi].Kind]))
+				n = x.Choose(len(graftPos[pi].Ptr) + 1) // the ancestor (by pointer length) the grafted reference points to
 			}
 			entry, allow := 0, false
 			// quick: both entry points and both switch settings only where they can matter (external-looking references, forests)
@@ -253,6 +321,29 @@ func init() {
 				forest = forest.Build()
 				c.data, _ = json.Marshal(forest.Files[forest.RootLoc])
 				c.desc = "forest " + forest.Signature()
+			case "graft":
+				// a reference to the object itself or to one of its ancestors, grafted into one of the object's reference slots
+				pos := graftPos[pi]
+				anc := pos.Ptr[:n]
+				if !graftAncestor[PtrString(anc)] {
+					return
+				}
+				doc := Skeleton()
+				hostAny, _ := GetAt(doc, pos.Ptr)
+				host, ok := hostAny.(map[string]any)
+				if !ok {
+					return
+				}
+				if _, isRef := host["$ref"]; isRef {
+					return
+				}
+				slot := c20Slots[pos.Kind][ri]
+				target := "#" + PtrString(anc)
+				for k, v := range slot.build(map[string]any{"$ref": target}) {
+					host[k] = v
+				}
+				c.desc = fmt.Sprintf("graft %s -> %s into %s of %s", slot.name, target, pos.Kind, PtrString(pos.Ptr))
+				c.data, _ = json.Marshal(doc)
 			}
 			_ = skYAML
 			sig := fmt.Sprintf("%s: %s entry=%d allow=%v", family, c.desc, entry, allow)
